@@ -41,6 +41,24 @@ def find_operator_fn(prog):
         vals = sorted(cp for cp, e in sw.items() if e == VALUE and len(cp) == 2)
         if len(ops) == 1 and len(vals) == 2:
             cands.append((f, ops[0], vals[0], vals[1]))
+    # the operator function *produces a value*: its result type carries a
+    # Value (helpers that merely inspect an operator and two operands do not)
+    prod = [c for c in cands if c[0].locals and VALUE in c[0].locals[0]]
+    if prod:
+        cands = prod
+    if len(cands) > 1:
+        def n_ops(c):
+            f = c[0]
+            seen = set()
+            for bb in range(len(f.blocks)):
+                if f.is_cleanup(bb) or f.term(bb)["k"] != "switch":
+                    continue
+                info = f.switch_info(bb)
+                if info and info["kind"] == "discr" and info["enum"] == BINOP:
+                    seen |= {n for n, _ in info["cases"]}
+            return len(seen)
+        best = max(n_ops(c) for c in cands)
+        cands = [c for c in cands if n_ops(c) == best]
     return cands
 
 
